@@ -99,11 +99,47 @@ func (f *fctx) invoke(ins *ssa.Call) {
 		f.oblige("S", fmt.Sprintf("S/nil-invoke@%s", f.insID(ins)), T(SBool, "(not (= %s any.nil))", f.val(com.Value).S), ins.Pos(), "method call on nil interface")
 		f.sc.Trusted["assumed contract (third-party, total, no effect on repository state): "+strings.TrimPrefix(key, ":invoke.")] = true
 		sig := com.Signature()
+		pre := f.cur.clone()
+		vars := map[string]Term{}
+		actuals := []Term{f.val(com.Value)}
+		for _, a := range com.Args {
+			actuals = append(actuals, f.val(a))
+		}
+		for i, n := range con.ParamNames {
+			if i < len(actuals) {
+				vars[n] = actuals[i]
+			}
+		}
+		mkEnv := func(st *State) *Env {
+			return &Env{Vars: vars, Defs: f.vc.cs.Defs, Reveal: f.revealSet(), Ghost: f.ghostResolver(st),
+				FieldOf: func(x Term, field string) (Term, bool) { return f.fieldIn(st, x, field) }}
+		}
+		var preTerms []Term
+		for i, c := range con.Requires {
+			t, err := ToSMT(c.Expr, mkEnv(pre))
+			if err != nil {
+				panic(specErr{fmt.Sprintf("%s:%d: %v", c.File, c.Line, err)})
+			}
+			preTerms = append(preTerms, wantBoolE(t))
+			f.oblige("R", fmt.Sprintf("R/%s.requires%d@%s", strings.TrimPrefix(key, ":invoke."), i, f.insID(ins)), wantBoolE(t), ins.Pos(), c.Text)
+		}
+		preAll := f.define("pre", And(preTerms...))
 		var res []Term
 		for i := 0; i < sig.Results().Len(); i++ {
 			r := f.declare(fmt.Sprintf("%s_r%d", com.Method.Name(), i), f.vc.sortOf(sig.Results().At(i).Type()))
 			f.assumeTypeInvariant(r, sig.Results().At(i).Type(), false)
+			vars[fmt.Sprintf("r%d", i)] = r
 			res = append(res, r)
+		}
+		f.havocGhosts(con.Modifies)
+		env := mkEnv(f.cur)
+		env.Old = mkEnv(pre)
+		for _, c := range con.Ensures {
+			t, err := ToSMT(c.Expr, env)
+			if err != nil {
+				panic(specErr{fmt.Sprintf("%s:%d: %v", c.File, c.Line, err)})
+			}
+			f.assume(Implies(preAll, wantBoolE(t)))
 		}
 		f.setResult(ins, res)
 		return
@@ -441,6 +477,7 @@ func (f *fctx) applyContract(callee *ssa.Function, con *Contract, args []Term, p
 		}
 		res = append(res, r)
 	}
+	f.havocGhosts(con.Modifies)
 	// frame: assigns recv.f / param.f
 	for _, a := range con.Assigns {
 		parts := strings.SplitN(a, ".", 2)
